@@ -535,7 +535,7 @@ LEVEL_TEXT += (" The stream model is built on the normalised view and names valu
                "under a refusing cap edge, or on the Err case of awaiting BodyExt::frame / http_dump_body: lib_c11.failure_splits), R7 walks path-sensitively (lib_c10.path_states, known variants carried through "
                "`Poll::Ready(..)` / `Some(..)` wrappers) from the Err case of a frame to the error item. The cap is `self.cap` captured by the generator or the `cap` field of a captured whole `self` that the generator never "
                "assigns or mutably borrows; the compared sum must structurally be running-count + Bytes::len(payload) (also let-bound / saturating_add), so another comparison with the cap (an asserted invariant) is not the check.")
-LEVEL_TEXT += ' Also (R9 = C10.R4): the request path, including the drain of an oversize body, has no unreviewed panic site. Also (R10): the limit is never the size argument of an allocation, reservation, resize or truncation, so a body within the limit is accepted for every configurable limit.'
+LEVEL_TEXT += ' Also (R9 = C10.R4): the request path, including the drain of an oversize body, has no unreviewed panic site. Also (R10): the limit is never the size argument of an allocation, reservation, resize or truncation, so a body within the limit is accepted for every configurable limit. Also (R11 = the accumulation clauses of C09.R1): into_bytes_mut returns the concatenation of every frame of the capped stream, read to its end.'
 
 
 SELFTEST += [
